@@ -786,4 +786,138 @@ theorem stage_eq_stage_runTree {t0 t : RawTree} {cfg : LevelLoop.Config}
       have hc' : l ∉ t0.hierarchy := by simpa using hc
       cases hf : cfg.flatten <;> simp [Markers.stage, hc']
 
+/-! ### C10 side of C17's flatten clause: flatten = build from the leaf column
+
+`flatten()` of the taxonomy built from the label columns IS (equal, not only
+`TreeEquiv`) the one-level taxonomy built from the leaf column alone: the leaf
+level's dict is filled by `tree[leaf_column][leaf].append(i_row)` whatever the
+other columns are. -/
+
+theorem getLast?_eq_getLastD {α} {r : List α} (hne : r ≠ []) (d : α) :
+    r.getLast? = some (r.getLastD d) := by
+  rw [List.getLastD_eq_getLast?, List.getLast?_eq_some_getLast hne]
+  rfl
+
+/-- the leaf column of the accumulator only depends on the leaf labels -/
+theorem go_leaf_col {cols : List Level} (hc : cols.Nodup) {leaf : Level}
+    (hl : cols.getLast? = some leaf) :
+    ∀ (recs : List (List Node)) (acc acc' : List (Level × LevelMap)) (i : Nat),
+      acc.map (·.1) = cols → acc'.map (·.1) = [leaf] → col acc leaf = col acc' leaf →
+      RecsOK cols recs →
+      col (fromRecordsRaw.go cols acc i recs) leaf =
+        col (fromRecordsRaw.go [leaf] acc' i (recs.map (fun r => [r.getLastD 0]))) leaf
+  | [], _, _, _, _, _, h, _ => h
+  | r :: rs, acc, acc', i, hk, hk', h, hr => by
+    have hrl : r.length = cols.length := hr r (by simp)
+    have hcne : cols ≠ [] := by intro he; rw [he] at hl; cases hl
+    have hrne : r ≠ [] := by
+      intro he; rw [he] at hrl
+      exact hcne (List.eq_nil_of_length_eq_zero hrl.symm)
+    have hf := getLast?_eq_getLastD hrne 0
+    show col (fromRecordsRaw.go cols (addRecord cols acc i r) (i+1) rs) leaf =
+      col (fromRecordsRaw.go [leaf] (addRecord [leaf] acc' i [r.getLastD 0]) (i+1)
+        (rs.map (fun r => [r.getLastD 0]))) leaf
+    apply go_leaf_col hc hl rs _ _ (i+1) (by rw [addRecord_keys]; exact hk)
+      (by rw [addRecord_keys]; exact hk') ?_ (fun r' h' => hr r' (List.mem_cons_of_mem _ h'))
+    rw [addRecord_col_leaf hc hk hrl i hl hf,
+      addRecord_col_leaf (cols := [leaf]) (r := [r.getLastD 0]) (l := leaf) (leaf := r.getLastD 0)
+        (by simp) hk' rfl i rfl rfl, h]
+
+/-- an association list whose keys are `ks ++ [leaf]` (distinct), filtered to
+the keys outside `ks`, is its last binding -/
+theorem filter_not_mem_init {β} (ks : List Level) (leaf : Level) :
+    ∀ (L : List (Level × β)), L.map (·.1) = ks ++ [leaf] → (ks ++ [leaf]).Nodup →
+      ∃ v, L.filter (fun kv => !(ks.contains kv.1)) = [(leaf, v)] ∧ L.lookup leaf = some v := by
+  induction ks with
+  | nil =>
+    intro L hL _
+    match L, hL with
+    | [(k, v)], hL =>
+      simp only [List.map_cons, List.map_nil, List.nil_append, List.cons.injEq, and_true] at hL
+      subst hL
+      exact ⟨v, by simp, by simp [List.lookup]⟩
+  | cons k ks ih =>
+    intro L hL hnd
+    match L, hL with
+    | (k', v') :: L', hL =>
+      simp only [List.map_cons, List.cons_append, List.cons.injEq] at hL
+      obtain ⟨rfl, hL'⟩ := hL
+      have hnd2 : (k' :: (ks ++ [leaf])).Nodup := hnd
+      have hnd' := List.nodup_cons.mp hnd2
+      obtain ⟨v, hf, hlk⟩ := ih L' hL' hnd'.2
+      refine ⟨v, ?_, ?_⟩
+      · -- the head is dropped; on the tail the two filters agree
+        have hne : ∀ kv ∈ L', kv.1 ≠ k' := by
+          intro kv hkv he
+          exact hnd'.1 (by rw [← hL', ← he]; exact List.mem_map.2 ⟨kv, hkv, rfl⟩)
+        have : L'.filter (fun kv => !(kv.1 == k' || ks.contains kv.1)) =
+            L'.filter (fun kv => !(ks.contains kv.1)) := by
+          apply List.filter_congr
+          intro kv hkv
+          have hb : (kv.1 == k') = false := beq_false_of_ne (hne kv hkv)
+          simp [hb]
+        simp only [List.filter_cons, List.contains_cons, beq_self_eq_true, Bool.true_or,
+          Bool.not_true, Bool.false_eq_true, if_false]
+        rw [this, hf]
+      · have hne : (leaf == k') = false := by
+          apply beq_false_of_ne
+          intro he
+          exact hnd'.1 (by rw [← he]; simp)
+        simp only [List.lookup, hne]
+        exact hlk
+
+theorem eq_singleton_of_keys {β} {leaf : Level} :
+    ∀ (L : List (Level × β)), L.map (·.1) = [leaf] → ∃ v, L = [(leaf, v)]
+  | [], h => by simp at h
+  | [(k, v)], h => by
+    simp only [List.map_cons, List.map_nil, List.cons.injEq, and_true] at h
+    exact ⟨v, by rw [h]⟩
+  | _ :: _ :: _, h => by simp at h
+
+/-- **flatten = build from the leaf column** (C10 side of C17) -/
+theorem flatten_fromRecords_eq {cols : List Level} {recs : List (List Node)} (hc : cols.Nodup)
+    (hne : cols ≠ []) (hr : RecsOK cols recs) :
+    (fromRecordsRaw cols recs).flatten =
+      fromRecordsRaw [cols.getLast hne] (recs.map (fun r => [r.getLastD 0])) := by
+  have hl : cols.getLast? = some (cols.getLast hne) := List.getLast?_eq_some_getLast hne
+  have hll : (fromRecordsRaw cols recs).leafLevel = some (cols.getLast hne) := hl
+  rw [flatten_eq hll]
+  -- the two level lists
+  have hkeys := fromRecordsRaw_keys cols recs
+  have hsplit : cols = cols.dropLast ++ [cols.getLast hne] := (List.dropLast_concat_getLast hne).symm
+  obtain ⟨v, hf, hlk⟩ := filter_not_mem_init cols.dropLast (cols.getLast hne)
+    (fromRecordsRaw cols recs).levels (by rw [hkeys]; exact hsplit) (by rw [← hsplit]; exact hc)
+  have hkeys' := fromRecordsRaw_keys [cols.getLast hne] (recs.map (fun r => [r.getLastD 0]))
+  obtain ⟨v', hL'⟩ := eq_singleton_of_keys _ hkeys'
+  have hcol := go_leaf_col hc hl recs (cols.map (fun c => (c, []))) [(cols.getLast hne, [])] 0
+    (by simp [List.map_map, Function.comp_def]) rfl
+    (by
+      have hm : cols.getLast hne ∈ cols := List.getLast_mem hne
+      simp only [col, List.lookup, beq_self_eq_true, Option.getD_some]
+      rw [lookup_of_mem_nodup (m := cols.map (fun c => (c, ([] : LevelMap)))) (k := cols.getLast hne)
+        (v := []) (by simpa [List.map_map, Function.comp_def] using hc)
+        (List.mem_map.2 ⟨_, hm, rfl⟩)]
+      rfl) hr
+  have hvv : v = v' := by
+    have h1 : col (fromRecordsRaw cols recs).levels (cols.getLast hne) = v := by
+      simp [col, hlk]
+    have h2 : col (fromRecordsRaw [cols.getLast hne] (recs.map (fun r => [r.getLastD 0]))).levels
+        (cols.getLast hne) = v' := by
+      unfold col
+      rw [hL']
+      simp [List.lookup]
+    rw [← h1, ← h2]
+    exact hcol
+  show ({ fromRecordsRaw cols recs with
+      hierarchy := [cols.getLast hne]
+      levels := (fromRecordsRaw cols recs).levels.filter
+        (fun (k, _) => !((fromRecordsRaw cols recs).hierarchy.dropLast.contains k)) } : RawTree) = _
+  have hfilter : (fromRecordsRaw cols recs).levels.filter
+        (fun (k, _) => !((fromRecordsRaw cols recs).hierarchy.dropLast.contains k)) =
+      (fromRecordsRaw [cols.getLast hne] (recs.map (fun r => [r.getLastD 0]))).levels := by
+    rw [hL', ← hvv, ← hf]
+    rfl
+  rw [hfilter]
+  rfl
+
 end CTM.Bridge
